@@ -79,8 +79,9 @@ class LockState:
         return out
 
 
-def requires_lock(db, func, mutex, _stack=()):
-    """True when every caller (same TU for statics) calls func with `mutex` held."""
+def requires_lock(db, func, mutex, _stack=(), serialised=None):
+    """True when every caller (same TU for statics) calls func with `mutex` held.  `serialised(f)` may name callers that
+    cannot run concurrently with anything (functions that only run inside the once-guarded library initialisation)."""
     if func.name in _stack:
         return False
     callers = [(f, c) for (f, c) in db.callers().get(func.name, []) if (not func.static or f.tu is func.tu)]
@@ -90,7 +91,9 @@ def requires_lock(db, func, mutex, _stack=()):
         ls = LockState(f, mutex)
         if ls.held_at(c):
             continue
-        if f.static and requires_lock(db, f, mutex, _stack + (func.name,)):
+        if serialised is not None and serialised(f):
+            continue
+        if f.static and requires_lock(db, f, mutex, _stack + (func.name,), serialised):
             continue
         return False
     return True
